@@ -186,6 +186,10 @@ class Model:
             if not ms:
                 return "atomic", "not-a-whole-state"
             if all(m > hi for m in ms):
+                # the observed batches above the reader's seqnum: still unpublished / in flight when the read ran?
+                fut = [c for i, c in enumerate(self.gc[g]) if hi < i + 1 <= min(ms)]
+                if fut and all(c["end"] > e["rseq"] and c["start"] < e["end"] and c["ret"] > e["begin"] for c in fut):
+                    return "nofuture", "future-unpublished"
                 return "nofuture", "above-reader-seqnum"
             # an older whole state: which batches are missing?
             newer_unpub = [c for i, c in enumerate(self.gc[g]) if i + 1 > max(ms) and c["end"] > e["rseq"] and c["start"] < e["end"]]
@@ -200,8 +204,9 @@ def trace_cfg(checked):
             "CHECK_DEADLOCK FALSE\n" % ", ".join('"%s"' % c for c in checked)).encode()
 
 
-LEAD_WHAT = ("flush/compaction may elide the last published version of a key in favour of an applied-but-unpublished "
-             "newer version (compactions never consult visibleSeqNum); a reader created in that window misses the key")
+LEAD_WHAT = ("A batch that is applied to its memtable but not yet published can be flushed (readyForFlush only looks at writerRefs; "
+             "compactions never consult visibleSeqNum): the flush elides the last published version of the key, so readers see a stale "
+             "value or nothing; a later bottom-level compaction zeroes the seqnum and makes the unpublished version visible to readers and snapshots")
 
 
 def validate_files(run, files, checked, label, max_rejects=6):
@@ -471,13 +476,18 @@ def run_c07(run):
         run.cov["lead_elide_unpublished"] = {"tlc": "ReadYourWrites violated after %d states with Elide=\"any\" (compaction ignores visibleSeqNum)" % lead.generated,
                                              "real_code": res}
         for name, r in res.items():
-            if str(r.get("get", "")).startswith("ERR:pebble: not found") or r.get("iter") == "EMPTY":
+            # the only correct answer in the window is v1 (v2 is unpublished); after the compaction still v1
+            stale = r.get("get") != "v1" or r.get("iter") != "v1"
+            early = r.get("get_after_compact") == "v2" and r.get("vis_after_compact") == r.get("vis_in_window")
+            if stale or early:
                 keep = os.path.join(run.outdir, "probe_elide_%s.json" % name)
                 json.dump(r, open(keep, "w"), indent=1)
                 run.violation({"kind": "lead-reproduced", "lead": "elide-unpublished"},
-                              "Set(k,v1) returned; Set(k,v2) applied but unpublished (visibleSeqNum=%s, logSeqNum=%s); Flush() completed; "
-                              "then Get(k) -> %s, NewIter (seqNum %s) -> %s. %s" % (r.get("vis_in_window"), r.get("logseq_in_window"),
-                                                                                     r.get("get"), r.get("iter_seq"), r.get("iter"), LEAD_WHAT),
+                              "Set(k,v0);Flush; Set(k,v1) returned; Set(k,v2) applied but unpublished (visibleSeqNum=%s, logSeqNum=%s); Flush() "
+                              "completed; then Get(k) -> %s, NewIter (seqNum %s) -> %s (must be v1); after Compact: Get(k) -> %s, snapshot at %s "
+                              "-> %s while visibleSeqNum=%s. %s" % (r.get("vis_in_window"), r.get("logseq_in_window"), r.get("get"),
+                                                                    r.get("iter_seq"), r.get("iter"), r.get("get_after_compact"), r.get("snap_seq"),
+                                                                    r.get("snap_get_after_compact"), r.get("vis_after_compact"), LEAD_WHAT),
                               {"probe": keep, "cmd": "VERIF_OUT=/var/tmp/x %s -test.run TestVCommitProbeElide -test.v" % driver(False)})
                 break
     elif lead.violation is None:
@@ -485,6 +495,64 @@ def run_c07(run):
     else:
         raise vlib.Inconclusive("Lead_ElideUnpublished violated %s (expected ReadYourWrites)" % lead.violation)
     run.assumptions += ASSUME
+
+
+def run_c42(run):
+    # design level: lock protocol deadlock freedom
+    vlib.sany(SPECDIR, "Locks")
+    jobs = [("exh", "Locks_A", 4, None, dict(module="Locks", timeout=900, heap="4g")),
+            ("exh", "Locks_B", 4, None, dict(module="Locks", timeout=900, heap="4g")),
+            ("bug", "Bug_Locks_StallHoldsDmu", 2, ["deadlock"], dict(module="Locks", timeout=600, heap="2g")),
+            ("bug", "Bug_Locks_IngestWaitsUnderDmu", 2, ["deadlock"], dict(module="Locks", timeout=600, heap="2g"))]
+    if run.tier == "thorough":
+        jobs.append(("live", "Locks_Live", 4, None, dict(module="Locks", timeout=1800, heap="4g")))
+    with ThreadPoolExecutor(max_workers=5) as ex:
+        results = list(ex.map(_tlc_job, jobs))
+    caught = {}
+    for kind, cfg, expect, r in results:
+        if r.timed_out:
+            raise vlib.Inconclusive("TLC timed out on Locks/%s" % cfg)
+        if kind == "bug":
+            if r.violation not in expect:
+                raise vlib.Inconclusive("seeded lock bug %s not caught as a deadlock (got %s)" % (cfg, r.violation))
+            caught[cfg] = "%s after %d states" % (r.violation, r.generated)
+        else:
+            if not r.ok:
+                raise vlib.Inconclusive("Locks/%s fails on the unmodified spec: %s\n%s" % (cfg, r.violation, r.out[-2000:]))
+            run.add_design("Locks/%s [commit+rotation, commit, read, Flush(), ingest waiting for a flush, looping flush job; "
+                           "DB.mu, commitPipeline.mu, manifest log lock, readState lock, write-stall / flushed / publish waits]" % cfg, r)
+    run.cov["seeded_bugs_caught"] = caught
+    # conformance: -race build, rich vocabulary, maintenance goroutine, watchdog, quiescent barriers
+    base = dict(VERIF_K=6, VERIF_GROUPS=4, VERIF_COMMITTERS=4, VERIF_READERS=3, VERIF_INGESTERS=1, VERIF_COMMITS=10, VERIF_PHASES=3,
+                VERIF_MAINT=1)
+    if run.tier == "quick":
+        plans = [dict(base, VERIF_ROUNDS=3, VERIF_YIELD=30, VERIF_PIPEYIELD=0),
+                 dict(base, VERIF_ROUNDS=3, VERIF_YIELD=20, VERIF_PIPEYIELD=25)]
+    else:
+        plans = [dict(base, VERIF_ROUNDS=25, VERIF_YIELD=30, VERIF_PIPEYIELD=0),
+                 dict(base, VERIF_ROUNDS=25, VERIF_YIELD=20, VERIF_PIPEYIELD=25),
+                 dict(base, VERIF_ROUNDS=15, VERIF_YIELD=50, VERIF_PIPEYIELD=50, VERIF_PROCS=2),
+                 dict(base, VERIF_ROUNDS=10, VERIF_YIELD=0, VERIF_PIPEYIELD=0, VERIF_COMMITTERS=8, VERIF_READERS=4)]
+    outs, files = common(run, "C42", plans, race=True, rich=True)
+    races = 0
+    for rc, out, env in outs:
+        if "WARNING: DATA RACE" in out:
+            races += 1
+            keep = os.path.join(run.outdir, "race_%d.txt" % races)
+            open(keep, "w").write(out)
+            first = out[out.index("WARNING: DATA RACE"):][:1500]
+            fn = re.findall(r"^  (\S+\(\))", first, re.M)
+            run.violation({"kind": "data-race", "at": fn[0] if fn else "?"}, "race detector report during concurrent use:\n" + first[:600],
+                          {"output": keep, "env": env})
+    quiesce = sum(1 for f in files for e in load(f) if e["op"] == "read" and e["kind"] == "quiesce")
+    run.cov["quiescent_barriers_compared"] = quiesce
+    run.cov["race_detector"] = "driver built with -race; %d report(s)" % races
+    run.assumptions += ASSUME + [
+        "data races are detected only as a side effect of the -race build on the schedules that happened; what TLC decides is lock-protocol "
+        "deadlock freedom (Locks.tla) and the result correctness of the recorded executions (CommitTrace.tla)",
+        "at quiescent barriers the full DB state (iterator scan and snapshot read) must equal the sequential fold of all committed batches "
+        "and ingests in seqnum order (set/delete/merge); excise is not part of this driver's vocabulary",
+    ]
 
 
 def REGISTER(reg):
@@ -506,3 +574,12 @@ def REGISTER(reg):
         "contiguous seqnum ranges in WAL append order, monotone boundary-valued visibleSeqNum samples covering every returned commit, "
         "readers created after a Commit returned observe it, snapshots observe exactly the batches below their seqnum.",
         note, tech, "DESIGN 5.2, 6/C07")
+    reg("C42", "Concurrent use permitted by the API is race- and deadlock-free", run_c42,
+        "Claimed for deadlocks, panics and result correctness; data races only as a side effect. Locks.tla (DB.mu, commitPipeline.mu, manifest "
+        "log lock, readState lock, the condition waits of makeRoomForWrite/Flush/ingest/publish) is deadlock-free under TLC; the stress driver "
+        "built with -race runs concurrent commits (set/delete/merge, large batches), Gets, iterators, snapshots, ingests, flushes, compactions, "
+        "checkpoints and metrics under a watchdog; TLC validates every concurrent read with the order-insensitive monitors and every quiescent "
+        "barrier against the sequential fold of all commits in seqnum order.",
+        "Trusted: TLC, Locks.tla as the statement of the lock protocol (hand-derived from db.go/ingest.go/compaction.go/version_set.go), the Go "
+        "race detector as execution environment. Bounded: 6 operations in the lock model; seeded stress runs.",
+        "TLA+ lock-protocol model checked by TLC for deadlock freedom + TLC trace validation of -race stress executions", "DESIGN 6/C42")
